@@ -86,11 +86,13 @@ func verifH_C16_external_callbacks() {
 	verifReach("end")
 }
 
-//verif:harness id=C16 tier=quick,thorough witness=end bounds="spellings and names that coincide: (a) two external files in different directories (cats/cat.json, dogs/dog.json) that each say ./common.json#/components/schemas/Id and thereby mean different files with different content; (b) a root /r/api/doc.json referring to a file of the same base name in another directory (v1/doc.json#/components/schemas/Item) while the root has a different Item of its own; (c) both at once: after internalising, serialising and reloading with external references disallowed every schema of the operation dereferences to the same content as before (distinct targets are not merged)"
+//verif:harness id=C16 tier=quick,thorough witness=end bounds="spellings and names that coincide: (a) two external files in different directories (cats/cat.json, dogs/dog.json) that each say ./common.json#/components/schemas/Id and thereby mean different files with different content; (b) a root /r/api/doc.json referring to a file of the same base name in another directory (v1/doc.json#/components/schemas/Item) while the root has a different Item of its own; (c) both at once; (d) two files with the same tail, one below the root's directory (common/id.json) and one beside it (../common/id.json): after internalising, serialising and reloading with external references disallowed every schema of the operation dereferences to the same content as before (distinct targets are not merged)"
 func verifH_C16_coinciding_spellings() {
 	verifMapOrder()
-	layout := verifChoose("layout", 3)
+	layout := verifChoose("layout", 4)
 	files := map[string]string{
+		"/r/api/common/id.json":   `{"type":"string","minLength":2}`,
+		"/r/common/id.json":       `{"type":"integer","minimum":2}`,
 		"/r/api/cats/cat.json":    `{"components":{"schemas":{"Cat":{"type":"object","properties":{"id":{"$ref":"./common.json#/components/schemas/Id"}}}}}}`,
 		"/r/api/cats/common.json": `{"components":{"schemas":{"Id":{"type":"string","minLength":3}}}}`,
 		"/r/api/dogs/dog.json":    `{"components":{"schemas":{"Dog":{"type":"object","properties":{"id":{"$ref":"./common.json#/components/schemas/Id"}}}}}}`,
@@ -98,10 +100,13 @@ func verifH_C16_coinciding_spellings() {
 		"/r/api/v1/doc.json":      `{"components":{"schemas":{"Item":{"type":"string","maxLength":5}}}}`,
 	}
 	props := ""
-	if layout != 1 {
+	if layout == 3 {
+		// (d) the same tail below the root's directory and beside it
+		props = `"below":{"$ref":"common/id.json"},"beside":{"$ref":"../common/id.json"}`
+	} else if layout != 1 {
 		props = `"cat":{"$ref":"cats/cat.json#/components/schemas/Cat"},"dog":{"$ref":"dogs/dog.json#/components/schemas/Dog"}`
 	}
-	if layout != 0 {
+	if layout != 0 && layout != 3 {
 		if props != "" {
 			props += ","
 		}
